@@ -7,6 +7,7 @@ import collections
 import datetime as dtm
 import math
 import os
+import zlib
 import shutil
 import tempfile
 import warnings
@@ -32,7 +33,12 @@ def write_csvs(files, d):
             f.write('Date,Open,High,Low,Close,Adj Close,Volume\n')
             for r in rows:
                 cell = lambda x: '' if x is None else (str(x) if isinstance(x, int) and not isinstance(x, bool) else repr(float(x)))
-                f.write('%s,%s,1.0,1.0,%s,%s,100\n' % (r[0], cell(r[1]), cell(r[2]), cell(r[3])))
+                # the columns no answer depends on (High, Low, Volume) vary with the row: blank, zero, negative, large
+                h = zlib.crc32(repr((sym, r)).encode())
+                hi = ('1.0', '', '0', '250.5', '-1')[h % 5]
+                lo = ('1.0', '0.0', '', '3')[(h >> 4) % 4]
+                vol = ('100', '0', '', '123456789', '0.0', '-5', '100')[(h >> 8) % 7]
+                f.write('%s,%s,%s,%s,%s,%s,%s\n' % (r[0], cell(r[1]), hi, lo, cell(r[2]), cell(r[3]), vol))
 
 
 def parsed_rows(d, sym):
